@@ -199,10 +199,52 @@ static uint64_t alias_arg(Rng & r, Kind k, uint64_t v, AliasKind & kind)
   }
 
 struct Item { uint8_t client; uint16_t op; uint64_t a, b; uint8_t alias; int16_t alias_of; int32_t fail_alloc = 0; };   // fail_alloc n > 0: the n-th allocation this call requests fails
-struct Plan { int clients; std::vector<Item> items; std::vector<std::pair<uint32_t, uint8_t>> respawn; uint64_t hash; bool nontrivial; };
+struct Plan { int clients; std::vector<Item> items; std::vector<std::pair<uint32_t, uint8_t>> respawn; uint64_t hash; bool nontrivial; bool sweep = false; };
+
+// alias sweep (round H): one operation asked one base question and 48-400 of its aliases at ONE stride with many different
+// multipliers (base + k*2^32 for hundreds of k, ...).  A table indexed by a hash of the whole argument and tagged with a
+// truncated one separates two aliases only by the slot; with k <= 3 (the ordinary aliasing variants) two of them almost
+// never meet in one slot, with hundreds of k they do, for any table of up to a few thousand slots.
+static bool gen_sweep_plan(uint64_t seed, int min_clients, Plan & p)
+  {
+  Rng r(seed ^ 0x243f6a8885a308d3ull);
+  if (r.below(1000) >= 12) return false;
+  p.clients = std::max(min_clients, r.chance(70) ? 1 : 2);
+  static const int fams[] = {FAM_SQRT, FAM_SQRT, FAM_SQRT, FAM_TRIG, FAM_TRIG, FAM_ATRIG, FAM_ATRIG, FAM_ANGLE, FAM_TABLE, FAM_TABLE, FAM_MISC, FAM_CONV};
+  int fam = fams[r.below(sizeof(fams) / sizeof(fams[0]))];
+  std::vector<uint16_t> c;
+  for (size_t j = 0; j < g_ops.size(); ++j) if (g_ops[j].family == fam) c.push_back(static_cast<uint16_t>(j));
+  if (c.empty()) return false;
+  uint16_t opi = c[r.below(c.size())];
+  const Op & op = g_ops[opi];
+  static const AliasKind kinds[] = {AL_LOW32, AL_LOW32, AL_LOW32, AL_LOW24, AL_LOW16, AL_LOW16, AL_LOW48, AL_2PI, AL_PI};
+  AliasKind ak = kinds[r.below(sizeof(kinds) / sizeof(kinds[0]))];
+  uint64_t stride = ak == AL_LOW32 ? (1ull << 32) : ak == AL_LOW24 ? (1ull << 24) : ak == AL_LOW16 ? (1ull << 16) : ak == AL_LOW48 ? (1ull << 48) : ak == AL_2PI ? 2ull * PHI_RAW : static_cast<uint64_t>(PHI_RAW);
+  // keep base + k*stride inside the 48-bit domain most functions are defined on (a quarter of the sweeps may leave it)
+  uint64_t room = (1ull << 47) / stride; if (room < 4) room = 32768; if (room > (1ull << 20)) room = 1ull << 20;
+  if (r.chance(25)) room *= 4;
+  uint64_t base = r.chance(60) ? 1 + r.below(stride < (1ull << 40) ? stride : (1ull << 40)) : fresh_arg(r, op.ka);
+  if (op.ka != K_FX && stride > (1ull << 24)) { stride = 1ull << 16; ak = AL_LOW16; room = 30000; }      // integer and float carriers: 16-bit strides
+  uint64_t b0 = fresh_arg(r, op.kb);
+  size_t n = 48 + r.below(353);
+  p.nontrivial = true; p.sweep = true;
+  for (size_t i = 0; i < n; ++i)
+    {
+    Item it{}; it.client = static_cast<uint8_t>(r.below(p.clients)); it.op = opi; it.alias = static_cast<uint8_t>(i ? ak : AL_NONE); it.alias_of = i ? 0 : -1;
+    if (i > 4 && r.chance(12)) { const Item & e = p.items[r.below(i)]; it.a = e.a; it.b = e.b; it.alias = AL_SAME; }       // ask an earlier one again
+    else { it.a = i ? base + (1 + r.below(room)) * stride : base; it.b = r.chance(85) ? b0 : fresh_arg(r, op.kb); }
+    if (!op.ok(it.a, it.b)) { it.a = 65536; it.b = (op.kb == K_FX) ? 65536 : 1; it.alias = AL_NONE; it.alias_of = -1; }
+    p.items.push_back(it);
+    }
+  uint64_t h = mix64(0x5eed, static_cast<uint64_t>(p.clients));
+  for (const Item & it : p.items) { h = mix64(h, it.client); h = mix64(h, it.op); h = mix64(h, it.a); h = mix64(h, it.b); }
+  p.hash = h;
+  return true;
+  }
 
 static Plan gen_plan(uint64_t seed, int min_clients)
   {
+  { Plan sw; if (gen_sweep_plan(seed, min_clients, sw)) return sw; }
   Rng r(seed ^ 0x5851f42d4c957f2dull);
   Plan p;
   unsigned kc = r.below(100);
@@ -1113,7 +1155,7 @@ struct Stats
   {
   std::vector<uint64_t> per_op;
   uint64_t clients_hist[9] = {0, 0, 0, 0, 0, 0, 0, 0, 0};
-  uint64_t crowd_runs = 0, hot_loop_runs = 0, plans_with_allocations = 0, fault_execs = 0;
+  uint64_t sweep_runs = 0, crowd_runs = 0, hot_loop_runs = 0, plans_with_allocations = 0, fault_execs = 0;
   uint64_t long_runs = 0, very_long_runs = 0, churn_runs = 0, respawns = 0, max_plan_len = 0;
   uint64_t alias_same[AL_N] = {0}, alias_cross[AL_N] = {0};
   uint64_t calls = 0, runs = 0, nontrivial = 0, iso_checks = 0, disagreements = 0, signals_seen = 0, lost = 0, findings = 0, unstable = 0;
@@ -1131,6 +1173,7 @@ static void account_plan(Stats & st, const Plan & p, const std::vector<Res> & ra
   ++st.runs; st.clients_hist[p.clients <= 8 ? p.clients : 0]++;      // slot 0 = more than 8 callers (crowd runs)
   if (p.clients > 8) ++st.crowd_runs;
   if (n >= 50000) ++st.hot_loop_runs;
+  if (p.sweep) ++st.sweep_runs;
   if (n >= 150) ++st.long_runs;
   if (n >= 3000) ++st.very_long_runs;
   if (!p.respawn.empty()) { ++st.churn_runs; st.respawns += p.respawn.size(); }
@@ -1189,7 +1232,7 @@ static void print_stats(const Stats & st, const char * mode, uint64_t seed0)
                   ",\"clock_queries_inside_library_calls\":" + std::to_string(g_clock_queries_total) + ",\"simulated_ns\":" + std::to_string(g_sim_ns_total) +
                   ",\"allocations_inside_library_calls\":" + std::to_string(g_allocs_total) + ",\"allocation_failures_injected\":" + std::to_string(g_alloc_failures_total) +
                   ",\"plans_with_allocations\":" + std::to_string(st.plans_with_allocations) + ",\"fault_injecting_executions\":" + std::to_string(st.fault_execs) +
-                  ",\"hot_loop_runs\":" + std::to_string(st.hot_loop_runs) + ",\"crowd_runs\":" + std::to_string(st.crowd_runs) + ",\"churn_runs\":" + std::to_string(st.churn_runs) + ",\"planned_respawns\":" + std::to_string(st.respawns) +
+                  ",\"alias_sweep_runs\":" + std::to_string(st.sweep_runs) + ",\"hot_loop_runs\":" + std::to_string(st.hot_loop_runs) + ",\"crowd_runs\":" + std::to_string(st.crowd_runs) + ",\"churn_runs\":" + std::to_string(st.churn_runs) + ",\"planned_respawns\":" + std::to_string(st.respawns) +
                   ",\"threads_started\":" + std::to_string(g_threads_total) + ",\"max_threads_in_one_execution\":" + std::to_string(g_threads_max) +
                   ",\"clients_hist\":[" + std::to_string(st.clients_hist[1]) + "," + std::to_string(st.clients_hist[2]) + "," + std::to_string(st.clients_hist[3]) + "," + std::to_string(st.clients_hist[4]) + "," +
                   std::to_string(st.clients_hist[5]) + "," + std::to_string(st.clients_hist[6]) + "," + std::to_string(st.clients_hist[7]) + "," + std::to_string(st.clients_hist[8]) + "]";
